@@ -101,7 +101,14 @@ fn call_group(c: &mut Child, seed: u64) {
             for (i, b) in text.iter().enumerate() {
                 real_poke(&mut rig.cpu, buf + i as u32, *b);
             }
-            let argp = if rng.chance(1, 2) { 0xffe900 + 4 * rng.below(64) as u32 } else { 0x430000 + 4 * rng.below(1024) as u32 };
+            let argp = match rng.below(8) {
+                // the 12-byte block flush against the end of a region (DRAM, on-chip RAM, vector area)
+                0 => *rng.pick(&[0x5ffff4u32, 0xffff14, 0xf4, 0x400000, 0xffbf20]),
+                1..=3 => 0xffe900 + 4 * rng.below(64) as u32,
+                _ => 0x430000 + 4 * rng.below(1024) as u32,
+            };
+            // never on top of the text itself
+            let argp = if argp + 12 > buf && argp < buf + len as u32 { if in_dram { 0xffe900 } else { 0x430000 } } else { argp };
             let fd = *rng.pick(&[0u32, 1, 2, 7, 0xffff_ffff]);
             poke32(&mut rig.cpu, argp, fd);
             poke32(&mut rig.cpu, argp + 4, buf);
@@ -156,7 +163,8 @@ fn call_group(c: &mut Child, seed: u64) {
                 1 => 0xfffd00 + 4 * rng.below(72) as u32,
                 2 => 0xffc200 + 4 * rng.below(0xf00) as u32,
                 3 => 0x430000 + 4 * rng.below(0x70000) as u32,
-                4 => *rng.pick(&[0xffff14u32, 0x5ffff8, 0xffbf20 + 0x100, 0x400000]),
+                // the 8-byte block flush against the end of a region
+                4 => *rng.pick(&[0xffff18u32, 0x5ffff8, 0xf8, 0xffbf20, 0x400000, 0x5ffff4]),
                 _ => 0xffe900 + 4 * rng.below(64) as u32,
             };
             poke32(&mut rig.cpu, argp, vector);
